@@ -1,3 +1,5 @@
+\* header cover (thorough): larger trees, states built from up to two accepted STHs, log_id field present or absent,
+\* a correct and a wrong proof
 CONSTANTS
   Logs = {"L1", "L2"}
   OtherLogs = {"LX"}
@@ -7,22 +9,24 @@ CONSTANTS
   Aliases = {"bits", "nl", "nopad", "urlsafe", "space"}
   CoverAliases = {"bits"}
   CoverFaultProofs = {"correct"}
-  DonorIdfs = {"absent", "right", "wrong"}
-  ForgedIdfs = {"absent", "right", "wrong"}
+  DonorIdfs = {"absent"}
+  ForgedIdfs = {"absent"}
   RSALogs = {"L2"}
   HashCodes = {"none", "md5", "sha1", "sha224", "sha256", "sha384", "sha512", "h7", "h8", "hx"}
   SigAlgs = {"anon", "rsa", "dsa", "ecdsa", "s7", "s8", "sx"}
-  HdrIdfs = {"absent"}
+  HdrIdfs = {"absent", "right"}
   HdrLogs = {"L1", "L2"}
-  HdrBuildSizes = {2}
-  HdrProofs = {"correct"}
-  HdrTofuFull = FALSE
+  HdrBuildSizes = {1, 3}
+  HdrProofs = {"correct", "empty"}
+  HdrTofuFull = TRUE
   HistLogs = {"L1"}
   HistProofs = {"correct", "empty"}
-  HistFaults = {"ctx"}
+  HistFaults = {"commit"}
   HistTs = {1}
-  Depth = 12
+  Depth = 3
 INIT Init
-NEXT SimNextF
-INVARIANTS ExportFinished
+NEXT HdrNext
+VIEW HdrView
+INVARIANTS ExportAtDepth OnlySigned ExactHeaderOnly
+PROPERTIES OtherHeaderRefused OtherHeaderLikeBadSig NoHashNoSignature
 CHECK_DEADLOCK FALSE
